@@ -148,13 +148,15 @@ Proof. exact failing_setup_witness. Qed.
 (* A whole test task (TestTask.run, Model/TaskSem.v test_run), whatever its hooks, fixtures and body do, unless a BaseException
    killed the worker: the user code entered is setup_test, then the test-scoped fixtures in schedule order — stopping after the
    first setup that records a failure —, then the body, only if every setup completed without a failure, then the teardowns of
-   exactly what was set up, in reverse order of setup (the fixture set up last first, teardown_test last). *)
+   exactly what was set up, in reverse order of setup (the fixture set up last first, teardown_test last); and a test one of
+   whose setups recorded a failure never ends with Success (a recorded failure is not forgotten by the teardowns). *)
 Theorem C03_test_task_user_code_order : forall env p suite t hk fxs,
   to_res (test_run env p suite t hk fxs) <> TkDied ->
   exists done rest, test_pairs p hk fxs = done ++ rest /\
     begins (to_main (test_run env p suite t hk fxs)) =
       setups_of done ++ (match rest with q :: _ => sf_owners (fst q) | [] => [OBody p] end) ++
-      rev (teardowns_of (map snd done)).
+      rev (teardowns_of (map snd done)) /\
+    (to_res (test_run env p suite t hk fxs) = TkSuccess -> rest = []).
 Proof. exact test_run_user_code_order. Qed.
 Print Assumptions C03_test_task_user_code_order.
 Example C03_test_task_order_witness :
@@ -216,3 +218,28 @@ Theorem C03_suite_setup_task_evaluates_the_schedule : forall reg force inh sp s 
     match h_setup_suite (su_hooks s) with Some _ => [OSetupSuite sp] | None => [] end.
 Proof. exact suite_setup_task_enters_the_schedule. Qed.
 Print Assumptions C03_suite_setup_task_evaluates_the_schedule.
+
+(* test scope: the test-scoped fixtures scheduled for a test are exactly those its arguments need, directly or through fixture
+   parameters, each once, dependencies first ... *)
+Theorem C03_test_fixtures_exactly_the_needed_ones : forall reg t, registry_ok reg ->
+  (forall f, In f (test_fixtures t) -> reg_mem reg f = true) ->
+  exists fxs, get_fixtures_scheduled_for_test reg t = Ok fxs /\
+    NoDup (map fx_name fxs) /\
+    (forall y, In y (map fx_name fxs) <->
+       (exists f, In f (test_fixtures t) /\ clos_refl_trans name (Edge (reg_find reg)) f y) /\ scope_of reg y ScTest) /\
+    (forall d1 fx t1, fxs = d1 ++ fx :: t1 ->
+       forall y, In y (fparams fx) -> scope_of reg y ScTest -> In y (map fx_name d1)).
+Proof. exact test_schedule_is_what_the_test_needs. Qed.
+Print Assumptions C03_test_fixtures_exactly_the_needed_ones.
+
+(* ... and a test task that ends with Success has entered exactly: setup_test, the setups of that schedule in order, the body,
+   the teardowns of its generator fixtures in reverse order, teardown_test — each once *)
+Theorem C03_successful_test_task : forall env p suite t hk fxs,
+  to_res (test_run env p suite t hk fxs) = TkSuccess ->
+  begins (to_main (test_run env p suite t hk fxs)) =
+    (match h_setup_test hk with Some _ => [OSetupTest p] | None => [] end) ++
+    map (fun fx => OFxSetup (fx_name fx)) fxs ++ [OBody p] ++
+    rev (map (fun fx => OFxTeardown (fx_name fx)) (filter fx_generator fxs)) ++
+    (match h_teardown_test hk with Some _ => [OTeardownTest p] | None => [] end).
+Proof. exact successful_test_task. Qed.
+Print Assumptions C03_successful_test_task.
